@@ -133,6 +133,10 @@ def evidence_not_in(p, K, k_ins, node, q, fn, m):
                 best = ("list_remove(&kernel.%s, n)" % q, k)
         if k < k_ins and e.callee == "list_extract" and K.queue_arg(e.args[0]) == q and e.res == node:
             best = ("n = list_extract(&kernel.%s)" % q, k)
+    # an empty queue holds nobody
+    fact = fib.queue_empty_facts(p, K).get(q)
+    if fact is not None and fact[0] is True and fact[1] < k_ins and (best is None or fact[1] > best[1]):
+        best = ("kernel.%s tested empty" % q, fact[1])
     return best
 
 
